@@ -28,7 +28,7 @@ Definition dot_path (k : list N) : list N := 36 :: 46 :: esc_dot_cps k.
 (* keys the dot spelling is defined for: no control character *)
 Definition dot_char (c : N) : bool := negb (in_ranges c [(0, 31); (127, 127)]).
 
-(* a path of name steps, each in one of the three spellings, index steps [digits] and wildcard steps .* / [*]:  $ step step ...  *)
+(* a path of name steps, each in one of the three spellings, index steps [digits], wildcard steps .* / [*], each possibly after `..`:  $ step step ...  *)
 Inductive kstep := SBr (q : N) (k : list N) | SDot (k : list N) | SIdx (ds : list N) | SWild (dot : bool).
 Definition render_step (s : kstep) : list N :=
   match s with
@@ -39,5 +39,12 @@ Definition render_step (s : kstep) : list N :=
   | SWild false => [91; 42; 93]
   end.
 Definition step_cps (s : kstep) : list N := match s with SBr _ k | SDot k => k | SIdx ds => ds | SWild _ => [] end.
-Definition render_steps (steps : list kstep) : list N := flat_map render_step steps.
-Definition chain_path (steps : list kstep) : list N := 36 :: render_steps steps.
+(* a step, or `..` followed by a step *)
+Inductive rstep := RPlain (s : kstep) | RRec (s : kstep).
+(* after `..` a dot name is written without its dot, and the wildcard as a bare * *)
+Definition rec_body (s : kstep) : list N :=
+  match s with SDot k => esc_dot_cps k | SWild true => [42] | _ => render_step s end.
+Definition render_rstep (x : rstep) : list N :=
+  match x with RPlain s => render_step s | RRec s => 46 :: 46 :: rec_body s end.
+Definition render_steps (steps : list rstep) : list N := flat_map render_rstep steps.
+Definition chain_path (steps : list rstep) : list N := 36 :: render_steps steps.
